@@ -1,5 +1,5 @@
 #!/bin/bash
 # confirm_one.sh <worktree> <patch-rel> <module-rel> <pkg-rel> <demo-rel> <run-pattern>
 wt=${1:?}; patch=${2:?}; mod=${3:?}; pkg=${4:?}; demo=${5:?}; pat=${6:?}
-cd "$wt" && git checkout -q -- . && git clean -fdq -- "$pkg" && cp "$demo" "$pkg"/ && /verif/tools/confirm_seed2.sh "$wt" "$patch" "$mod" "$pkg" "$pat" '.*/TestSeeded' 2>&1 | grep -E "^(---|ok|FAIL)" | tr '\n' ' '; echo
+cd "$wt" && git checkout -q -- . && git clean -fdq -- "$pkg" && cp "$demo" "$pkg"/ && /verif/tools/confirm_seed2.sh "$wt" "$patch" "$mod" "$pkg" "$pat" 'TestSeeded|.*/TestSeeded' 2>&1 | grep -E "^(---|ok|FAIL)" | tr '\n' ' '; echo
 cd "$wt" && git clean -fdq -- "$pkg"
